@@ -207,6 +207,9 @@ func (g *genState) genOp(v *view) op {
 		o := op{kind: "add", local: false}
 		if r.Chance(22) {
 			o.local = true
+		} else if r.Chance(25) {
+			o.async = true
+			g.dist("add-async-racing-reads")
 		}
 		a := r.Intn(n)
 		if r.Chance(4) {
@@ -222,6 +225,10 @@ func (g *genState) genOp(v *view) op {
 		return o
 	case 2: // batch
 		o := op{kind: "add", local: r.Chance(15)}
+		if !o.local && r.Chance(25) {
+			o.async = true
+			g.dist("add-async-racing-reads")
+		}
 		k := r.Range(2, 6)
 		a := r.Intn(n)
 		addr := g.w.addrs[a]
